@@ -45,9 +45,12 @@ def int_bytes(n):
             ln += 1
 
 
+# both sides of every byte-length boundary of the signed encoding up to 17 bytes, and around 255 / 256 bytes
+_INT_EDGES = [v for k in list(range(1, 18)) + [255, 256] for v in (2 ** (8 * k - 1) - 1, 2 ** (8 * k - 1), -2 ** (8 * k - 1), -2 ** (8 * k - 1) - 1)]
 INT_VALS = st.one_of(
     st.sampled_from([0, 1, -1, 2, 127, 128, -128, -129, 255, 256, 32767, 32768, -32768, -32769, 65535, 65536,
                      2 ** 31 - 1, 2 ** 31, 2 ** 63, -2 ** 63, 2 ** 64]),
+    st.sampled_from(_INT_EDGES),
     st.integers(-300, 300), st.integers(-2 ** 70, 2 ** 70))
 
 FLOATS4 = st.one_of(
